@@ -63,6 +63,16 @@ func Seen[T any](h H, k int, ok bool, v T) T {
 	return v
 }
 
+// Pick is Seen for arguments whose value steers the directive: a captured
+// identifier also changes the value (bad instead of v).
+func Pick[T any](h H, k int, ok bool, v, bad T) T {
+	h.Ident(k, ok)
+	if !ok {
+		return bad
+	}
+	return v
+}
+
 type hKey struct{}
 
 // WithH stores h in ctx for user functions that are plain top-level
